@@ -41,9 +41,14 @@ func (e *Enc) extCall(ins ssa.Instruction, name string, callee *ssa.Function, si
 		e.setResult(res, rs)
 		return true
 	case "fmt.Sprintf", "fmt.Sprint", "fmt.Sprintln", "strings.Join", "strings.Repeat", "strings.ToLower", "strings.ToUpper", "strings.TrimSpace":
-		trust("total; result string unconstrained")
 		rs := e.freshResults(sig, h)
 		e.havocKey(h, "$A")
+		if content, ok := e.sprintfContent(name, ins); ok {
+			trust("the verbs %s (string), %.2x (integer: two hex digits, bhex2) and %x (byte slice: hex) render their arguments in order between the literal text")
+			e.assert(implies(reach, app("=", app("bstr", rs[0].T), content)))
+		} else {
+			trust("total; result string unconstrained")
+		}
 		e.setResult(res, rs)
 		return true
 	case "io.ReadFull":
@@ -628,4 +633,105 @@ func (e *Enc) isolatedFreshTarget(v ssa.Value) ([]ssa.Value, bool) {
 		}
 	}
 	return ri.sites, true
+}
+
+// sprintfContent: in token mode, the byte-string content of fmt.Sprintf with a constant format made of literal text and
+// the verbs %s (string argument), %.2x (integer argument) and %x (byte-slice argument). Anything else: not modelled.
+func (e *Enc) sprintfContent(name string, ins ssa.Instruction) (string, bool) {
+	if !e.token || name != "fmt.Sprintf" {
+		return "", false
+	}
+	c := ins.(ssa.CallInstruction).Common()
+	if len(c.Args) != 2 {
+		return "", false
+	}
+	fc, ok := c.Args[0].(*ssa.Const)
+	if !ok || fc.Value == nil || fc.Value.Kind() != constant.String {
+		return "", false
+	}
+	format := constant.StringVal(fc.Value)
+	// the variadic arguments: stores of MakeInterface values into the backing array
+	sl, ok := c.Args[1].(*ssa.Slice)
+	if !ok {
+		return "", false
+	}
+	al, ok := sl.X.(*ssa.Alloc)
+	if !ok {
+		return "", false
+	}
+	vals := map[int64]ssa.Value{}
+	for _, ref := range *al.Referrers() {
+		ia, ok := ref.(*ssa.IndexAddr)
+		if !ok {
+			continue
+		}
+		k, isC := isConstInt(ia.Index)
+		if !isC {
+			return "", false
+		}
+		for _, r2 := range *ia.Referrers() {
+			if st, ok := r2.(*ssa.Store); ok && st.Addr == ia {
+				if mi, ok := st.Val.(*ssa.MakeInterface); ok {
+					vals[k] = mi.X
+				} else {
+					return "", false
+				}
+			}
+		}
+	}
+	e.needB = true
+	var parts []string
+	lit := ""
+	flush := func() {
+		if lit != "" {
+			parts = append(parts, app("bstr", e.strConst(lit)))
+			lit = ""
+		}
+	}
+	argi := int64(0)
+	for i := 0; i < len(format); i++ {
+		if format[i] != '%' {
+			lit += string(format[i])
+			continue
+		}
+		rest := format[i:]
+		var verb string
+		switch {
+		case strings.HasPrefix(rest, "%.2x"):
+			verb = "%.2x"
+		case strings.HasPrefix(rest, "%s"):
+			verb = "%s"
+		case strings.HasPrefix(rest, "%x"):
+			verb = "%x"
+		default:
+			return "", false
+		}
+		v, ok := vals[argi]
+		if !ok {
+			return "", false
+		}
+		argi++
+		flush()
+		x := e.val(v)
+		switch {
+		case verb == "%s" && x.S == "Str":
+			parts = append(parts, app("bstr", x.T))
+		case verb == "%.2x" && x.S == "Int":
+			parts = append(parts, app("bhex2", x.T))
+		case verb == "%x" && x.S == "Slice" && isByteSlice(v.Type()):
+			parts = append(parts, app("bstr", app("bhex", e.tokBytes(e.cur, x.T))))
+		default:
+			return "", false
+		}
+		i += len(verb) - 1
+	}
+	flush()
+	if len(parts) == 0 {
+		return "beps", true
+	}
+	t := parts[len(parts)-1]
+	for i := len(parts) - 2; i >= 0; i-- {
+		t = app("bcat", parts[i], t)
+	}
+	return t, true
 }
